@@ -16,6 +16,7 @@ Aspects (signature field 'check'):
 Shard families (shard field 'check', usable with --only):
   core      all ValueMap sequences x 8 types, Values of equal size, every value of the 8-bit types
   sizes     all ValueMap sequences x Values shorter/longer/with duplicates x values_default
+            (full length for BOUNDS.sizes_long_types, one entry less for the other types)
   kinds     property / array property / method / parameter / array parameter, CIMInt probe values,
             through a stub server and through pywbem_mock.FakedWBEMConnection
   novm      Values without ValueMap
@@ -25,7 +26,6 @@ Shard families (shard field 'check', usable with --only):
 import itertools
 import json
 import os
-import traceback
 import warnings
 
 import mc
@@ -33,7 +33,6 @@ from mc.core import Acc, HarnessError
 from mc import minimize as M
 from mc.refmodels import valuemap as R
 
-import pywbem
 import pywbem_mock
 from pywbem import (CIMClass, CIMProperty, CIMMethod, CIMParameter, CIMQualifier,
                     CIMQualifierDeclaration, ValueMapping, ModelError)
@@ -48,7 +47,11 @@ RULE = ('ValueMap arrays are all sequences up to the length bound over the entry
         'equal, shorter and longer size and with duplicates, values_default None/"dflt", no '
         'ValueMap at all, the 8 integer types and the 5 element kinds; probe values are every '
         'value of the type (8-bit; 16-bit in family wide) or every bound of every entry, +-1, the '
-        'type limits and 0/+-1. A case is one mapping with all its probes; it is non-trivial if '
+        'type limits and 0/+-1. Not a full product: Values of other than equal size (family '
+        'sizes) use the full length bound for BOUNDS.sizes_long_types and one entry less for the '
+        'other types; the element kinds, CIMInt probe values and the FakedWBEMConnection route '
+        '(family kinds) use arrays up to kinds_len / kinds_faked_len; family core is the full '
+        'product of sequences x types. A case is one mapping with all its probes; it is non-trivial if '
         'pywbem built the mapping and at least one answer was decided by the reference model '
         '(pairs both sides reject, and mappings on which the statement is silent, are trivial)')
 ASSUMPTIONS = [
@@ -65,7 +68,7 @@ BOUNDS = {
     'quick': {'valuemap_len': 3, 'atoms': 24, 'sizes_long_types': ['uint8', 'sint32'],
               'sizes_len_long': 3, 'sizes_len_short': 2, 'sizes_short_groups': 1, 'kinds_len': 2,
               'kinds_faked_len': 2, 'novm_len': 4, 'wide_len': 0},
-    'thorough': {'valuemap_len': 4, 'atoms': 24, 'sizes_long_types': ['uint8', 'sint32'],
+    'thorough': {'valuemap_len': 4, 'atoms': 24, 'sizes_long_types': ['uint8'],
                  'sizes_len_long': 4, 'sizes_len_short': 3, 'sizes_short_groups': 5, 'kinds_len': 3,
                  'kinds_faked_len': 2, 'novm_len': 5, 'wide_len': 2},
 }
@@ -241,6 +244,7 @@ def obtain(spec):
         server.add_cimobjects(klass, namespace=NS)
     else:
         server = StubServer(klass)
+    # both call forms: values_default omitted, and passed (also when it is None)
     kw = {} if spec['dflt'] is None and spec['route'] == 'stub' else dict(values_default=spec['dflt'])
     try:
         try:
